@@ -16,6 +16,7 @@ fn main() {
         "C04" => run_check(c04::C04, &args),
         "C05" => run_check(c05::C05, &args),
         "C06" => run_check(c06::C06, &args),
+        "C11" => run_check(c11::C11, &args),
         "C12" => run_check(c12::C12, &args),
         "C13" => run_check(c13::C13, &args),
         "C14" => run_check(c14::C14, &args),
